@@ -15,61 +15,72 @@ import (
 )
 
 type Obligation struct {
-	Name    string
-	Kind    string
-	Detail  string
-	Goal    *Term
-	PC      *Term
-	NFacts  int
-	Pos     string
-	Props   []string
-	Func    string
-	Clause  *Clause
-	Inputs  map[string]*Term // named symbolic inputs, for counterexample extraction
-	Result  *SolveResult
-	KnownAs string
+	Name      string
+	Kind      string
+	Detail    string
+	Goal      *Term
+	PC        *Term
+	NFacts    int
+	Pos       string
+	Props     []string
+	Func      string
+	Clause    *Clause
+	Inputs    map[string]*Term // named symbolic inputs, for counterexample extraction
+	Result    *SolveResult
+	KnownAs   string
 	ModelKeys []string
+	Parts     []oblPart // per-return split of an ensures obligation: discharged iff every part is
+}
+
+type oblPart struct {
+	PC, Goal *Term
+	What     string
 }
 
 type Exec struct {
-	P           *Program
-	p           *Pool
-	tm          *TypeMap
-	top         *ssa.Function
-	topC        *FuncContract
-	facts       []*Term
-	obls        []*Obligation
-	regionSorts map[string]*Sort
-	epochN      int
-	epochMerges map[int]*epochMerge
-	ptrIDs      map[string]*Term
-	ptrByID     map[*Term]*PtrV
+	P            *Program
+	p            *Pool
+	tm           *TypeMap
+	top          *ssa.Function
+	topC         *FuncContract
+	facts        []*Term
+	obls         []*Obligation
+	regionSorts  map[string]*Sort
+	epochN       int
+	epochMerges  map[int]*epochMerge
+	ptrIDs       map[string]*Term
+	ptrByID      map[*Term]*PtrV
 	condClosures map[*Term][]condClosure
-	cellN       int
-	allocN      int
-	depth       int
-	inlineStack []*ssa.Function
-	oblCount    map[string]int
-	assumptions map[string]bool // opaque calls, havocs, trusted contracts used
-	unsupported []string
-	old         *State
-	modSet      []modEntry // frame of the function under check
-	frameOn     bool
-	heapTop0    *Term
-	inputs      map[string]*Term
-	curProps    []string
-	sentinels   map[string]*Term
-	strLits     map[string]*Term
-	curFn       *ssa.Function
-	specDepth   int
-	boxes       map[*Term]boxInfo
-	shiftCache  map[string]*Term
-	specDecls   map[string]*FuncDecl
-	allocOrder  map[*Term]int
-	bounded     map[*Term]bool
-	typeIDs     map[string]int
-	freshErrs   []*Term
-	noOblige    int // >0: evaluating spec code; do not emit obligations
+	cellN        int
+	allocN       int
+	depth        int
+	inlineStack  []*ssa.Function
+	oblCount     map[string]int
+	assumptions  map[string]bool // opaque calls, havocs, trusted contracts used
+	unsupported  []string
+	old          *State
+	modSet       []modEntry // frame of the function under check
+	frameOn      bool
+	heapTop0     *Term
+	inputs       map[string]*Term
+	curProps     []string
+	sentinels    map[string]*Term
+	strLits      map[string]*Term
+	curFn        *ssa.Function
+	specDepth    int
+	boxes        map[*Term]boxInfo
+	shiftCache   map[string]*Term
+	specDecls    map[string]*FuncDecl
+	bitCache     map[int][]*Term
+	bitLinked    map[int]bool
+	expandMemo   map[string]*Term
+	symMemo      map[int]map[string]bool
+	sliceOrigin  map[*Term]*PtrV
+	allocOrder   map[*Term]int
+	bounded      map[*Term]bool
+	typeIDs      map[string]int
+	freshErrs    []*Term
+	noOblige     int // >0: evaluating spec code; do not emit obligations
 }
 
 type modEntry struct {
@@ -81,7 +92,7 @@ func NewExec(P *Program) *Exec {
 	p := NewPool()
 	ex := &Exec{P: P, p: p, tm: NewTypeMap(p), regionSorts: map[string]*Sort{}, epochMerges: map[int]*epochMerge{},
 		ptrIDs: map[string]*Term{}, ptrByID: map[*Term]*PtrV{}, condClosures: map[*Term][]condClosure{}, oblCount: map[string]int{},
-		assumptions: map[string]bool{}, boxes: map[*Term]boxInfo{}, shiftCache: map[string]*Term{}, specDecls: map[string]*FuncDecl{}, typeIDs: map[string]int{}, inputs: map[string]*Term{}, sentinels: map[string]*Term{}, strLits: map[string]*Term{},
+		assumptions: map[string]bool{}, boxes: map[*Term]boxInfo{}, shiftCache: map[string]*Term{}, specDecls: map[string]*FuncDecl{}, bitCache: map[int][]*Term{}, bitLinked: map[int]bool{}, expandMemo: map[string]*Term{}, symMemo: map[int]map[string]bool{}, sliceOrigin: map[*Term]*PtrV{}, typeIDs: map[string]int{}, inputs: map[string]*Term{}, sentinels: map[string]*Term{}, strLits: map[string]*Term{},
 		allocOrder: map[*Term]int{}, bounded: map[*Term]bool{}}
 	p.DistinctFn = ex.distinct
 	constArrs := map[string]*Term{}
@@ -301,12 +312,12 @@ type retInfo struct {
 }
 
 type frame struct {
-	fn      *ssa.Function
-	loops   []*Loop
-	fc      *FuncContract
-	rets    []retInfo
-	dbg     map[string][]ssa.Value
-	isTop   bool
+	fn    *ssa.Function
+	loops []*Loop
+	fc    *FuncContract
+	rets  []retInfo
+	dbg   map[string][]ssa.Value
+	isTop bool
 }
 
 // runBody executes fn from its entry in state st (parameters already bound) and returns the merged return state.
@@ -466,8 +477,8 @@ func (ex *Exec) execLoop(fr *frame, l *Loop, in []edge) []edge {
 	if spec.Unroll > 0 {
 		var exits []edge
 		cur := in
-		for k := 0; k <= spec.Unroll && len(cur) > 0; k++ {
-			if k == spec.Unroll {
+		for k := 0; k <= spec.Unroll+1 && len(cur) > 0; k++ {
+			if k == spec.Unroll+1 {
 				// unwinding assertion
 				for _, e := range cur {
 					ex.oblige(e.st, fmt.Sprintf("loop%d.unwind", l.Ordinal), "loop exceeds unroll bound", ex.p.False(), pos)
@@ -475,7 +486,23 @@ func (ex *Exec) execLoop(fr *frame, l *Loop, in []edge) []edge {
 				cur = nil
 				break
 			}
-			outs := ex.execRegion(fr, l, l.Blocks, cur, false)
+			var outs []edge
+			if len(spec.Invariants) > 0 {
+				// stepping stones: the invariants are checked and then assumed at the head of every unrolled iteration
+				hs := ex.enterBlock(l.Header, cur)
+				lcu := &loopCtx{fr: fr, l: l}
+				for i, inv := range spec.Invariants {
+					g := ex.evalBool(ex.ctxFor(fr, hs, lcu), inv)
+					o := ex.oblige(hs, fmt.Sprintf("loop%d.inv@%d", l.Ordinal, k), fmt.Sprintf("invariant %d at unrolled iteration %d: %s", i, k, inv.Text), g, pos)
+					if o != nil {
+						o.Clause = inv
+					}
+					ex.assume(hs, g)
+				}
+				outs = ex.execRegion(fr, l, l.Blocks, []edge{{nil, l.Header, hs}}, true)
+			} else {
+				outs = ex.execRegion(fr, l, l.Blocks, cur, false)
+			}
 			cur = nil
 			for _, e := range outs {
 				if e.to == l.Header {
@@ -1061,6 +1088,63 @@ func (ex *Exec) pow2Term(y *Term) *Term {
 	return r
 }
 
+// bitsOf: one Boolean per bit of an integer term of a fixed-width type (created on demand and linked to the
+// integer value by a single linear equation). Index-bit tests in unrolled tree loops then become pure Boolean
+// structure, which the solvers decide orders of magnitude faster than div/mod chains.
+func (ex *Exec) bitsOf(x *Term, t types.Type) []*Term {
+	b, ok := basicInt(t)
+	if !ok {
+		return nil
+	}
+	lo, hi, _ := intRange(b)
+	w := hi.BitLen()
+	signed := lo.Sign() < 0
+	if signed {
+		w++
+	}
+	if bs, ok := ex.bitCache[x.id]; ok && len(bs) == w {
+		return bs
+	}
+	p := ex.p
+	bs := make([]*Term, w)
+	sum := p.Int(0)
+	for h := 0; h < w; h++ {
+		bs[h] = p.Const(fmt.Sprintf("bit!%d!%d", x.id, h), BoolSort)
+		wgt := p.IntBig(pow2(int64(h)))
+		if signed && h == w-1 {
+			wgt = p.Neg(wgt)
+		}
+		sum = p.Add(sum, p.Ite(bs[h], wgt, p.Int(0)))
+	}
+	ex.facts = append(ex.facts, p.Eq(x, sum))
+	ex.bitCache[x.id] = bs
+	return bs
+}
+
+// linkBits: bitAt(x, k) == the k-th bit Boolean of x, for every k (ground facts, once per term).
+func (ex *Exec) linkBits(x *Term, t types.Type) {
+	if ex.bitLinked[x.id] {
+		return
+	}
+	bs := ex.bitsOf(x, t)
+	if bs == nil {
+		return
+	}
+	ex.bitLinked[x.id] = true
+	p := ex.p
+	f := p.Func("bitAt", []*Sort{IntSort, IntSort}, BoolSort)
+	for k, b := range bs {
+		ex.facts = append(ex.facts, p.Eq(p.App(f, x, p.Int(int64(k))), b))
+	}
+}
+
+func isPow2(m *big.Int) (int, bool) {
+	if m.Sign() <= 0 || new(big.Int).And(m, new(big.Int).Sub(m, big.NewInt(1))).Sign() != 0 {
+		return 0, false
+	}
+	return m.BitLen() - 1, true
+}
+
 func (ex *Exec) bitAnd(x, y *Term, rt types.Type) *Term {
 	p := ex.p
 	if x.Op == "int" && y.Op == "int" && x.Int.Sign() >= 0 && y.Int.Sign() >= 0 {
@@ -1072,14 +1156,23 @@ func (ex *Exec) bitAnd(x, y *Term, rt types.Type) *Term {
 	}
 	if lit.Op == "int" && lit.Int.Sign() >= 0 {
 		m := lit.Int
+		// single bit 2^k
+		if k, ok := isPow2(m); ok {
+			base, shift := other, 0
+			if other.Op == "div" && other.Args[1].Op == "int" {
+				if s, ok := isPow2(other.Args[1].Int); ok {
+					base, shift = other.Args[0], s
+				}
+			}
+			if bs := ex.bitsOf(base, rt); bs != nil && k+shift < len(bs) {
+				return p.Ite(bs[k+shift], p.IntBig(m), p.Int(0))
+			}
+			return p.Mul(p.Mod(p.Div(other, p.IntBig(m)), p.Int(2)), p.IntBig(m))
+		}
 		// mask 2^k - 1
 		m1 := new(big.Int).Add(m, big.NewInt(1))
 		if m1.BitLen() > 0 && new(big.Int).And(m1, m).Sign() == 0 {
 			return p.Mod(other, p.IntBig(m1))
-		}
-		// single bit 2^k
-		if m.Sign() > 0 && new(big.Int).And(m, new(big.Int).Sub(m, big.NewInt(1))).Sign() == 0 {
-			return p.Mul(p.Mod(p.Div(other, p.IntBig(m)), p.Int(2)), p.IntBig(m))
 		}
 	}
 	f := p.Func("bit&", []*Sort{IntSort, IntSort}, IntSort)
